@@ -40,6 +40,11 @@ fn aamva_base() -> J { json!({
     "CDL_indicator":1, "DHS_compliance_text":"Compliant", "DHS_temporary_lawful_status":1 }) }
 const AAMVA_MANDATORY: [&str; 5] = ["domestic_driving_privileges", "family_name_truncation", "given_name_truncation", "sex", "DHS_compliance"];
 
+pub fn mdl_base_pub() -> J { mdl_base() }
+pub fn aamva_base_pub() -> J { aamva_base() }
+pub const MDL_MANDATORY_PUB: [&str; 11] = MDL_MANDATORY;
+pub const AAMVA_MANDATORY_PUB: [&str; 5] = AAMVA_MANDATORY;
+
 fn run_record(ctx: &mut Ctx, tag: &str, module: &str, name: &str, j: &J, what: &str) {
     let real = if name == "OrgIso1801351" { guarded({ let j = j.clone(); move || OrgIso1801351::from_json(&j).map(|n| n.to_ns_map()).ok() }) }
                else { guarded({ let j = j.clone(); move || OrgIso1801351Aamva::from_json(&j).map(|n| n.to_ns_map()).ok() }) };
